@@ -4,7 +4,8 @@ open KafVerif KafVerif.LfsHttp
 
 /-! C32 driver.  Ops:
 `new <maxBlob> <defaultAlg>`
-`produce <len> <fill> <alg|-> <absent|right|wrong> <none|put|create|part1|complete|delete> <broker>`
+`produce <len> <fill> <alg|-> <absent|right|wrong> <none|put|create|part<k>|complete|delete>[.once][.before] <broker>`
+`par <part:n:len:fill:s3Fails | abort> …`   requests of the session that OVERLAP; the session lock serialises them in arrival order
 `init <size> <alg|-> <absent|right|wrong> <createFails> <plan>`      `part <n> <len> <fill> <s3Fails>`
 `complete <n:ok|bad|empty,…|-> <s3Fails> <broker>`      `abort`      `expire`
 broker = ack | code:<n> | nopartition | garbage | close | refuse -/
@@ -23,9 +24,19 @@ def parseBroker (s : String) : Broker :=
     | ["code", n] => .code (n.toInt?.getD 0)
     | _ => .ack
 
-def parseFault (s : String) : S3Fault :=
-  if s == "put" then .put else if s == "create" then .create else if s == "part1" then .part1
-  else if s == "complete" then .complete else if s == "delete" then .delete else .none
+/-- `.once` (transient) and `.before` (fails before S3 read the body) do not matter to the code as it is: one attempt per call -/
+def parseFault (s0 : String) : S3Fault :=
+  let s := (s0.splitOn ".").headD ""
+  if s == "put" then .put else if s == "create" then .create
+  else if s == "complete" then .complete else if s == "delete" then .delete
+  else if s.startsWith "part" then .part ((s.drop 4).toString.toNat?.getD 0)
+  else .none
+
+def parseParReq (w : String) : Option Op :=
+  match w.splitOn ":" with
+  | ["part", n, len, fill, fails] => some (.part (n.toNat?.getD 0) ⟨fill.toNat?.getD 0, len.toNat?.getD 0⟩ (fails == "1"))
+  | ["abort"] => some .abort
+  | _ => none
 
 def parseList (s : String) : List (Nat × Etag) :=
   if s == "-" then [] else
@@ -67,6 +78,10 @@ def stepLine (σ : String × St) (ws : List String) : (String × St) × String :
   | ["complete", list, fails, broker] =>
     let r := step st (.complete (parseList list) (fails == "1") (parseBroker broker))
     ((dflt, r.1), sessLine "complete" r)
+  | "par" :: reqs =>
+    let r := run step st (reqs.filterMap parseParReq)
+    let sts := ",".intercalate (r.2.map fun o => toString o.status)
+    ((dflt, r.1), s!"par status={sts} env=none sha_is_obj=na produced=false {showSess r.1.sess} obj={showObj r.1.object}")
   | ["abort"] => let r := step st .abort; ((dflt, r.1), sessLine "abort" r)
   | ["expire"] => let r := step st .expire; ((dflt, r.1), sessLine "expire" r)
   | _ => (σ, "bad-op")
